@@ -725,11 +725,12 @@ def rule_pending_bits(ctx):
             continue
         defs = Defs(f)
         cands = []
+        inc_calls = {}
         for l in range(1, len(f.locals)):
             if f.local_ty(l) not in ("u8", "u16", "u32", "usize"):
                 continue
             ds = [d for d in defs.of(l) if not f.is_cleanup(d[0]) and d[2] == "assign"]
-            if len(ds) < 2:
+            if not ds:
                 continue
             inc = zero = False
             for d in ds:
@@ -741,6 +742,26 @@ def rule_pending_bits(ctx):
                     if src and src[2] == "assign" and src[3][2][0] == "bin" and src[3][2][1] in ("AddWithOverflow", "Add") and \
                             op_local(src[3][2][2]) == l and op_const_int(src[3][2][3]) == 1:
                         inc = True
+            # the increment may live in a helper that is handed `&mut counter` and adds one through the reference
+            refs = {st[1][0] for blk in f.blocks for st in blk[0]
+                    if st[0] == "=" and len(st[1]) == 1 and st[2][0] == "ref" and st[2][2] == [l]}
+            grew = bool(refs)
+            while grew:         # reborrows `&mut *r`
+                more = {st[1][0] for blk in f.blocks for st in blk[0]
+                        if st[0] == "=" and len(st[1]) == 1 and st[2][0] == "ref" and len(st[2][2]) == 2 and st[2][2][1] == "*" and st[2][2][0] in refs}
+                grew = not more <= refs
+                refs |= more
+            for b, t in f.calls():
+                c = callee(t)
+                g = ctx.prog.fn(c.get("res", c["fn"])) if c else None
+                if g is None or g.crate != f.crate or g is f or len(g.blocks) > 12:
+                    continue
+                for ai, a in enumerate(t[2]):
+                    if op_local(a) in refs and any(st[0] == "=" and st[2][0] == "bin" and st[2][1] in ("AddWithOverflow", "Add") and
+                                                   op_place(st[2][2]) == [ai + 1, "*"] and op_const_int(st[2][3]) == 1
+                                                   for blk in g.blocks for st in blk[0]):
+                        inc = True
+                        inc_calls.setdefault(l, set()).add(b)
             if inc and zero:
                 cands.append(l)
 
@@ -788,6 +809,8 @@ def rule_pending_bits(ctx):
                 t = f.term(b)
                 if b in consumers:
                     pending = False
+                if b in inc_calls.get(l, ()):
+                    pending = True
                 if t[0] == "ret":
                     if pending:
                         bad = True
